@@ -115,7 +115,10 @@ func rsaBlind(kind int, n *big.Int, label string) []byte {
 
 func run(p P) *mc.Viol {
 	mc.Entropy("c01-" + p.label())
-	chal := mc.Fill(seedBase, fmt.Sprintf("chal-%d-%d", p.CL, p.Seed), p.CL)
+	var chal []byte // CL < 0: the empty challenge handed over as a nil slice
+	if p.CL >= 0 {
+		chal = mc.Fill(seedBase, fmt.Sprintf("chal-%d-%d", p.CL, p.Seed), p.CL)
+	}
 	fail := func(se *px.StageErr) *mc.Viol {
 		return &mc.Viol{Sig: fmt.Sprintf("type%d honest flow fails at %s: %s", p.T, se.Stage, trunc(se.Err, 60)), What: fmt.Sprintf("case %s: %s", p.label(), se.Error())}
 	}
@@ -589,6 +592,13 @@ func main() {
 		"independent verifiers: crypto/rsa.VerifyPSS for types 2/3; RFC 9497 Evaluate recomposed from circl group primitives for types 1/5 (shares circl's group arithmetic with the implementation)",
 		"crypto/rand.Reader is replaced by a per-goroutine SHA-256 counter DRBG")
 	r.Set("dimensions", map[string]any{"oprf_keys": oprfKeys, "rsa_keys": rsaKeysIdx, "challenge_lens": lens, "nonce_kinds": nonces, "entropy_seeds": seeds, "type5_batches": batches, "type3_origin_lens": names})
+	// the empty challenge written as a nil slice: every case with a zero-length challenge once more
+	for _, c := range append([]P{}, cases...) {
+		if c.CL == 0 {
+			c.CL = -1
+			cases = append(cases, c)
+		}
+	}
 	r.Par(len(cases), func(i int) {
 		if r.OutOfTime() {
 			r.NotExhaustive("time budget")
